@@ -164,6 +164,13 @@ func (sh *SessionHandler) rpcFormContract(s *session, log *zap.Logger) (contract
 		s.t.WriteResponseErr(err)
 		return contracts.Usage{}, err
 	}
+	// heights are stored as signed 64-bit integers: a larger proof window end
+	// passes validation but cannot be recorded once the contract is broadcast
+	if fc.WindowEnd > math.MaxInt64 {
+		err := errors.New("contract rejected: proof window end is too large")
+		s.t.WriteResponseErr(err)
+		return contracts.Usage{}, err
+	}
 
 	// validate the contract formation fields. note: the v1 contract type
 	// does not contain the public keys or signatures.
@@ -296,6 +303,13 @@ func (sh *SessionHandler) rpcRenewAndClearContract(s *session, log *zap.Logger) 
 	// prevent forming contracts that end after the v2 hardfork
 	if renewedContract.WindowStart >= cs.Network.HardforkV2.RequireHeight {
 		err := ErrAfterV2Hardfork
+		s.t.WriteResponseErr(err)
+		return contracts.Usage{}, err
+	}
+	// heights are stored as signed 64-bit integers: a larger proof window end
+	// passes validation but cannot be recorded once the renewal is broadcast
+	if renewedContract.WindowEnd > math.MaxInt64 {
+		err := errors.New("invalid contract renewal: proof window end is too large")
 		s.t.WriteResponseErr(err)
 		return contracts.Usage{}, err
 	}
